@@ -31,6 +31,12 @@ def case(runner, r, base, i, profile, rich_ok, malformed, oc, ereqs, epend, sreq
         model = engtpl.with_eventless_rows(r, model)
         oc.stat("tables_with_rows_without_event")
     tpl = engtpl.rand_template(r, profile, rich_ok=rich_ok)
+    if model["iface"].get("enums") and r.random() < 0.7:
+        # the multi-line global value on a line of its own, indented by spaces, TABs or both, with or without text around it
+        segs = [["lit", r.choice(["", "    ", "  ", "\t", "\t    ", "  \t", "        "])]] + ([["lit", r.choice(["// ", "x", "enums: "])]] if r.random() < 0.3 else []) \
+            + [["tag", "ENUMS"]] + ([["lit", r.choice([" //", "}", ";"])]] if r.random() < 0.3 else [])
+        f0 = r.choice(tpl)
+        f0["items"].insert(r.randrange(len(f0["items"]) + 1), dict(k="line", segs=[x for x in segs if x[1] != ""]))
     if not malformed:
         for f in tpl:
             f["final_newline"] = True
@@ -43,10 +49,25 @@ def case(runner, r, base, i, profile, rich_ok, malformed, oc, ereqs, epend, sreq
     ereqs.append(req)
     epend.append((info, cap, err))
     oc.stat("profile_" + profile + ("_malformed" if malformed else ("_rich" if rich_ok else "")))
+    # a global tag with a multi-line value (the declarations of the interface's enumerations): the engine indents the
+    # continuation lines like the tag's line - part of Model/Engine (compared below), not of the token-level reference
+    multi = bool(req.get("enums")) and any("<<<ENUMS>>>" in l for _, ls in fl for l in ls)
+    if multi:
+        oc.stat("templates_with_a_multi_line_global_value")
     oc.stat("backend_" + model["backend"])
-    if not malformed and not rich_ok:
+    if not malformed and not rich_ok and multi:
+        # the reference for these: the template with the rule for multi-line values already applied (engtpl.preexpand_multiline)
+        tpl2 = [dict(f, items=engtpl.preexpand_multiline(f["items"], "ENUMS", req["enums"])) for f in tpl]
+        if all(f["items"] is not None for f in tpl2):
+            itf = genlib.build_iface(runner.kt, model["iface"])
+            order = os.path.join(base, "c%d" % i)
+            sreqs.append(engtpl.spec_request(model, engrun.in_listing_order(tpl2, order), itf, ut, enums=""))
+            fl2 = [(f["name"], engtpl.render_file(f)) for f in tpl2]
+            spend.append((info, engrun.in_listing_order(fl2, order, name=lambda f: f[0]), err, final))
+            oc.stat("multi_line_global_values_compared_with_the_reference")
+    if not malformed and not rich_ok and not multi:
         itf = genlib.build_iface(runner.kt, model["iface"])
-        q = engtpl.spec_request(model, engrun.in_listing_order(tpl, os.path.join(base, "c%d" % i)), itf, ut)
+        q = engtpl.spec_request(model, engrun.in_listing_order(tpl, os.path.join(base, "c%d" % i)), itf, ut, enums=req.get("enums", ""))
         sreqs.append(q)
         spend.append((info, engrun.in_listing_order(fl, os.path.join(base, "c%d" % i), name=lambda f: f[0]), err, final))
         wreqs.append(dict(q, cmd="engwf"))
